@@ -125,6 +125,22 @@ static void check_case(vg::Src& s, vh::Ctx& c)
     double zs = std::pow(10.0, static_cast<int>(s.range(0, 6)) - 2);
     for (auto& v : z)
         v *= zs;
+    // small relief on a high (or deep) level: plateau at 1000 m with millimetre noise, sea floor
+    // at -4000 m ... (relative relief 1e-7..1e-4: far above rounding, far below the level)
+    bool plateau = s.chance(36);
+    if (plateau)
+    {
+        static const double levels[] = { 1000.0, -4000.0, 1e6, 25.0 };
+        double L = levels[s.u8() % 4];
+        double rel = std::pow(10.0, -static_cast<int>(s.range(4, 7)));
+        double zm = 0;
+        for (auto v : z)
+            zm = std::max(zm, std::fabs(v));
+        if (zm == 0)
+            zm = 1;
+        for (auto& v : z)
+            v = L + v / zm * std::fabs(L) * rel;
+    }
     // diffusivity
     size_t kcls = s.weighted({ 90, 40, 60, 66 });  // scalar, uniform array, smooth, rough
     double ks = std::pow(10.0, static_cast<int>(s.range(0, 8)) - 4) * (0.5 + s.unit());
@@ -217,6 +233,20 @@ static void check_case(vg::Src& s, vh::Ctx& c)
                 c.fail("not-linear", "node " + std::to_string(i) + ": erode(a u + b v) = " + vg::fmt(ec[i]) + " but a erode(u) + b erode(v) = " + vg::fmt(static_cast<double>(want)));
         }
     }
+    // adding a constant to the elevation does not change the erosion (linearity and zero erosion
+    // of a constant field)
+    {
+        static const double shifts[] = { 1000.0, -250.0, 1e5, 3.0 };
+        double sh = shifts[s.u8() % 4];
+        std::vector<double> zsft(n);
+        for (size_t i = 0; i < n; ++i)
+            zsft[i] = z[i] + sh;
+        auto es = ero->erode(zsft, dt);
+        LD tsh = 1000 * static_cast<LD>(DBL_EPSILON) * (zmax + std::fabs(sh)) * amp * 3 + 1e-300L;
+        for (size_t i = 0; i < n; ++i)
+            if (!(fabsl(static_cast<LD>(es[i]) - e[i]) <= tsh))
+                c.fail("not-translation-invariant", "node " + std::to_string(i) + ": erode(z + " + vg::fmt(sh) + ") = " + vg::fmt(es[i]) + " but erode(z) = " + vg::fmt(e[i]));
+    }
     // the same eroder object re-used with another diffusivity (scalar <-> array) and field:
     // precomputed factors and scratch arrays must not leak from the previous step
     bool reused = false;
@@ -269,6 +299,8 @@ static void check_case(vg::Src& s, vh::Ctx& c)
     c.label(stiff >= 100 ? "stiff>=100" : stiff >= 0.1L ? "stiff>=0.1" : "stiff<0.1");
     c.label(amp <= 1e6L ? "amp<=1e6" : "amp>1e6");
     c.label(sp.cache ? "cache" : "nocache");
+    if (plateau)
+        c.label("small-relief-on-high-level");
     if (m.hloop || m.vloop)
         c.label("looped-borders(ignored)");
 }
